@@ -200,6 +200,9 @@ def run(tier, seed):
                          ('json',) if src == 'Loaded' else ('-',), seed, 5))
         jobs.append(('twosheet', W.POOL_QUICK[:3], 'NoData', ('-',), seed, 5))
         jobs.append(('twosheet', W.POOL_QUICK[:3], 'Loaded', ('json',), seed, 5))
+        # precedents reached through the reference operators
+        jobs.append(('refops', [None, 2], 'NoData', ('-',), seed, 5))
+        jobs.append(('refops', [None, 2], 'Stored', ('-',), seed, 5))
         jobs.append(('range', W.POOL_QUICK[:3], 'Stored', ('-',), seed, 5, True))
         jobs.append(('range', [2], 'NoData', ('-',), seed, 5, False,
                      [[('A1', 5), ('A2', True), ('A3', None)], [('A3', 'a'), ('A1', 0)]]))
